@@ -192,10 +192,12 @@ Definition poll_frame (a : answer) (d : dec) : fres :=
       if is_request (d_dir d) && (st_code st =? Code_Cancelled) then FNone d
       else FErr st (with_state d (Error (Some st)))
   | AEnd =>
-      match d_buf d with
-      | [] => FNone d
-      | _ :: _ => FErr st_eof d
-      end
+      (* a message is incomplete if bytes are left over, or if its header has been consumed and
+         its payload is still outstanding *)
+      let incomplete :=
+        match d_buf d with [] => false | _ :: _ => true end ||
+        match d_state d with ReadBody _ _ => true | _ => false end in
+      if incomplete then FErr st_eof d else FNone d
   | AFrame f =>
       if is_data f then
         match into_data f with
@@ -407,10 +409,14 @@ Fixpoint ztab_lookup (t : list (N * list N * option (list N))) (e : N) (p : list
   | (e', p', r) :: t' => if (e' =? e) && bytes_eqb p' p then r else ztab_lookup t' e p
   end.
 
+(* payloads above 4096 bytes are compared by length and a digest (the harness's direct oracle
+   still compares them byte by byte with the input) *)
+Definition digest (p : list N) : N :=
+  fold_left (fun h b => (h * 31 + b + 1) mod 4294967291) p 7.
 Definition pres_obs (r : pres (list N)) : tr :=
   match r with
   | Pending => Nd [Nn 0]
-  | Item (IOk m) => Nd [Nn 1; Bs m]
+  | Item (IOk m) => if 4096 <? nlen m then Nd [Nn 1; Nn (nlen m); Nn (digest m)] else Nd [Nn 1; Bs m]
   | Item (IErr st) => Nd [Nn 2; Nn (st_code st)]
   | Done => Nd [Nn 3]
   | Panic => Nd [Nn 4]
